@@ -21,7 +21,7 @@ CONFIG = {"quick": {"shards": 4, "timeout_s": 600, "batches": 60},
           "thorough": {"shards": 16, "timeout_s": 3000, "batches": 3000}}
 REQUIRED_COUNTERS = ["tabulated_points_checked", "interpolation_checked", "extrapolation_checked", "shape_checks", "compressibility_slope_checks",
                      "integral_antisymmetry_checks", "integral_additivity_checks", "integral_mean_checks", "integral_quadrature_checks", "mixture_checks",
-                     "pump_scalar_checks", "pump_array_checks", "pump_reverse_flow_checks", "std_type_rows_checked",
+                     "pump_scalar_checks", "pump_array_checks", "pump_reverse_flow_checks", "std_type_rows_checked", "std_type_rows_after_individual_override",
                      "property_class_interextra", "property_class_linear", "property_class_constant", "property_class_polynominal"]
 FLUIDS = ["water", "air", "lgas", "hgas", "hydrogen", "methane", "biomethane_pure", "biomethane_treated"]
 
@@ -168,7 +168,17 @@ def run_stdtypes(case, obs):
     csv = pd.read_csv(os.path.join(os.path.dirname(pp.__file__), "std_types", "library", "Pipe.csv"), sep=";", index_col=0)
     net = pp.create_empty_network(fluid="water")
     j = pp.create_junctions(net, 2, 1.0, 300.0)
+    rng = np.random.default_rng([case.get("seed", 0), 1919])
     for name, row in csv.iterrows():
+        # an individual override on one pipe (single or bulk call) must not reach the library entry: the next pipe of the same
+        # type still gets the library values
+        r = rng.random()
+        if r < 0.35:
+            pp.create_pipe(net, j[0], j[1], std_type=name, length_km=0.1, k_mm=float(row["k_mm"]) * 3 + 0.5, u_w_per_m2k=7.0)
+            obs.count("std_type_rows_after_individual_override")
+        elif r < 0.5:
+            pp.create_pipes(net, [j[0], j[0]], [j[1], j[1]], std_type=name, length_km=0.1, k_mm=float(row["k_mm"]) * 3 + 0.5)
+            obs.count("std_type_rows_after_individual_override")
         idx = pp.create_pipe(net, j[0], j[1], std_type=name, length_km=0.1)
         obs.count("std_type_rows_checked")
         got = net.pipe.loc[idx]
@@ -180,6 +190,11 @@ def run_stdtypes(case, obs):
             obs.violate("std_type_parameter_changed", "pipe from std type %s: u_w_per_m2k=%r, library says %r" % (name, got["u_w_per_m2k"], row["u_w_per_m2k"]))
         if got["std_type"] != name:
             obs.violate("std_type_parameter_changed", "pipe from std type %s stores std_type %r" % (name, got["std_type"]))
+        lib = net.std_types["pipe"][name]
+        for col in ("inner_diameter_mm", "outer_diameter_mm", "k_mm"):
+            if float(lib[col]) != float(row[col]):
+                obs.violate("std_type_library_entry_changed", "net.std_types['pipe'][%r][%s]=%r after creating pipes, library file says %r"
+                            % (name, col, lib[col], row[col]), std_type=name, column=col)
     return {"std_types": len(csv)}
 
 
